@@ -192,7 +192,7 @@
                  (bitwise-and
                   (arithmetic-shift node-bits (- (iset-start node) start))
                   (range->bits start end)))
-                (new-end (min end (+ start (integer-length bits)))))
+                (new-end (min end (+ start (max 0 (- (integer-length bits) 1))))))
            (%make-iset start new-end bits #f #f))))
    (else
     (%make-iset (max start (iset-start node))
